@@ -19,7 +19,7 @@ MANIFEST = {
 BOUNDS = {
     'quick': dict(fragments='<= 3 (more are cut)', crc_types='{0,1,2} for primary and payload', ext_blocks='none | one plain | one replicated | both',
                   flags='none | NO_FRAGMENT | IS_FRAGMENT', security='off | BIB over the payload | BCB over the payload (ideal primitives)'),
-    'thorough': dict(fragments='<= 5', crc_types='all 9 combinations', ext_blocks='as quick', flags='as quick', security='as quick'),
+    'thorough': dict(fragments='<= 4', crc_types='all 9 combinations', ext_blocks='as quick', flags='as quick', security='as quick'),
 }
 ASSUMPTIONS = [
     'payload content is opaque; its CRC is an uninterpreted value of the right width',
@@ -38,7 +38,7 @@ def cases(tier):
         for ext in ('none', 'plain', 'repl', 'both'):
             if tier == 'quick' and ext in ('plain', 'both') and (pc, bc) != (2, 2):
                 continue
-            out.append(dict(pcrc=pc, bcrc=bc, ext=ext, flags='none', origin='local', kfrag=3 if tier == 'quick' else 5))
+            out.append(dict(pcrc=pc, bcrc=bc, ext=ext, flags='none', origin='local', kfrag=3 if tier == 'quick' else 4))
     for fl in ('nofrag', 'isfrag'):
         out.append(dict(pcrc=2, bcrc=2, ext='repl', flags=fl, origin='local', kfrag=3))
     out.append(dict(pcrc=2, bcrc=2, ext='both', flags='none', origin='forwarded', kfrag=3))
